@@ -75,12 +75,14 @@ def boundary_values(ck, C):
     vs = [('v',)] + [('i', x) for x in I64] + [('f', x) for x in F64] + [('o', x) for x in I64[:8] + [0x7fffdeadbeef]] + \
          [('b', 0), ('b', 1)]
     req, stk, big = C['REQ_BUF_SIZE'], C['COP_REPLY_STACK_BUF'], C['COP_REPLY_BIG_BUF']
-    lens = [0, 1, 2, 255, 256, stk - 6, stk - 5, stk - 4, req - 12, req - 11, req - 10, req - 1, req, req + 1, 32768, 65535, 65536]
-    if ck.thorough:
+    lens = [0, 1, 2, 255, 256, stk - 6, stk - 5, stk - 4, 8180, 8181, 8182, 8191, 8192, 8193, 32768, 65535, 65536]
+    if req <= 65536:
+        lens += [req - 12, req - 11, req - 10, req - 1, req, req + 1]
+    if ck.thorough and big <= 2 * 1024 * 1024:
         lens += [big - 6, big - 5, big - 4, 3 * big]
     for n in lens:
         vs.append(('s', b'x' * n))
-    for n in [1, 5, 256, req - 11, 65536]:
+    for n in [1, 5, 256, 8181, 65536]:
         vs.append(('s', bytes(rng.randrange(256) for _ in range(n))))
         vs.append(('s', bytes((0x80 + (i * 7) % 128) for i in range(n))))
     vs.append(('s', b'\0'))
@@ -154,7 +156,7 @@ def codec_lines(ck, C):
         dist[v[0]] = dist.get(v[0], 0) + 1
         n = len(enc)
         safe.append('rt ' + d)
-        for cap in sorted({0, 1, n - 1, n, n + 1, C['COP_REPLY_STACK_BUF'], C['REQ_BUF_SIZE'] - 6} | ({n - 5, n - 9, n // 2} if v[0] == 'a' else set())):
+        for cap in sorted({0, 1, n - 1, n, n + 1, C['COP_REPLY_STACK_BUF'], 8186, min(C['REQ_BUF_SIZE'], 1 << 20) - 6} | ({n - 5, n - 9, n // 2} if v[0] == 'a' else set())):
             if cap >= 0:
                 safe.append('ser %d %s' % (cap, d))
         if n <= 70000:
@@ -428,22 +430,40 @@ def e2e_dir():
     return d
 
 
+_BIN = {}
+
+
+def private_bin(b):
+    """copies of the fresh nano_virt / nano_vm / nano_cop taken under the build lock (a concurrent check may relink build/plain/bin)"""
+    if b.root not in _BIN:
+        bd = os.path.join(vlib.BUILD, 'c15', 'bin')
+        os.makedirs(bd, exist_ok=True)
+        with vlib.Lock():
+            for n in ('nano_virt', 'nano_vm', 'nano_cop'):
+                dst = os.path.join(bd, n)
+                if not os.path.exists(dst) or open(dst, 'rb').read() != open(b.bin(n), 'rb').read():
+                    shutil.copy2(b.bin(n), dst + '.tmp'); os.replace(dst + '.tmp', dst)
+        _BIN[b.root] = bd
+    return _BIN[b.root]
+
+
 def run_prog(b, name, src):
     """compile with the fresh nano_virt, run in-process and isolated; returns dict or raises for machinery errors"""
     d = e2e_dir()
+    bd = private_bin(b)
     p = os.path.join(d, name + '.nano')
     open(p, 'w').write(src)
     nvm = os.path.join(d, name + '.nvm')
     if os.path.exists(nvm):
         os.unlink(nvm)
-    rc, o, e = vlib.sh([b.bin('nano_virt'), p, '--emit-nvm', '-o', nvm], timeout=60, cwd=b.root)
+    rc, o, e = vlib.sh([os.path.join(bd, 'nano_virt'), p, '--emit-nvm', '-o', nvm], timeout=60, cwd=b.root)
     if rc != 0 or not os.path.exists(nvm):
         return dict(compiled=False, rc=rc, err=(o + e)[-1500:])
-    env = dict(os.environ, PATH=b.bindir + ':' + os.environ.get('PATH', ''), NANO_C15_VAR='value of var', NANO_C15_EMPTY='',
+    env = dict(os.environ, PATH=bd + ':' + os.environ.get('PATH', ''), NANO_C15_VAR='value of var', NANO_C15_EMPTY='',
                NANO_C15_HIGH='héllo ✓')
     env.pop('NANO_C15_UNSET', None)
-    r1 = vlib.sh([b.bin('nano_vm'), nvm], timeout=60, env=env, cwd=d)
-    r2 = vlib.sh([b.bin('nano_vm'), '--isolate-ffi', nvm], timeout=120, env=env, cwd=d)
+    r1 = vlib.sh([os.path.join(bd, 'nano_vm'), nvm], timeout=60, env=env, cwd=d)
+    r2 = vlib.sh([os.path.join(bd, 'nano_vm'), '--isolate-ffi', nvm], timeout=120, env=env, cwd=d)
     return dict(compiled=True, inproc=r1, cop=r2, path=p)
 
 
@@ -503,12 +523,19 @@ def check_prog(ck, b, ref, prog, C):
 
 def e2e_programs(ck, C):
     req, big = C['REQ_BUF_SIZE'], C['COP_REPLY_BIG_BUF']
-    lim = req - 6 - 5                                  # longest single string argument that fits
-    progs = [prog_strlen(n) for n in [0, 1, 4091, lim - 1, lim, lim + 1, req, 32768, 65536]]
-    half = (req - 6 - 10) // 2
-    progs += [prog_strcmp(half, half), prog_strcmp(half, half + 1 + (req - 6 - 10) % 2), prog_strcmp(half + 1, half + 1), prog_strcmp(10, req)]
-    nmax = (big - 6) // 9                              # largest int array result that fits the 1 MiB reply buffer
-    progs += [prog_bigreply(nmax), prog_bigreply(nmax + 1)]
+    sizes = {0, 1, 4091, 8180, 8181, 8182, 8192, 32768, 65536}
+    pairs = {(4088, 4088), (4088, 4089), (4089, 4089), (10, 8192)}
+    if req <= 65536:
+        lim = req - 6 - 5                              # longest single string argument that fits
+        sizes |= {lim - 1, lim, lim + 1, req}
+        half = (req - 6 - 10) // 2
+        pairs |= {(half, half), (half, half + 1 + (req - 6 - 10) % 2), (half + 1, half + 1), (10, req)}
+    progs = [prog_strlen(n) for n in sorted(sizes)] + [prog_strcmp(a, b) for a, b in sorted(pairs)]
+    counts = {116507, 116508}                          # around the 1 MiB retry buffer of the unchanged code
+    if big <= 2 * 1024 * 1024:
+        nmax = (big - 6) // 9                          # largest int array result that fits the reply buffer
+        counts |= {nmax, nmax + 1}
+    progs += [prog_bigreply(n) for n in sorted(counts)]
     progs.append(PROG_STDOUT)
     for i in range(120 if ck.thorough else 30):
         progs.append(rand_program(ck.rng, i))
@@ -533,6 +560,7 @@ def run(ck):
     probe_plain = ck.probe('cop_probe.c', 'plain')
     run_codec(ck, ref, probe_asan, probe_plain, C)
     shutil.rmtree(e2e_dir(), ignore_errors=True)
+    private_bin(b)
     progs = corpus_programs() + e2e_programs(ck, C)
     from concurrent.futures import ThreadPoolExecutor
     seen = {}
